@@ -344,6 +344,7 @@ pub fn property() -> Property {
             name: "ledger-histories",
             rule: "see property rule",
             cases: (1_200_000, 8_000_000),
+            fuzz_decode: Some(crate::fuzzdec::c08_case),
             strategy,
             check,
             required_classes: &[
